@@ -82,6 +82,9 @@ func main() {
 	if tier != "quick" && tier != "thorough" {
 		usage()
 	}
+	if tier == "thorough" && os.Getenv("VERIF_PRUNE") != "0" {
+		pruneBonus = 1
+	}
 	switch {
 	case worker:
 		workerMain(prop, tier, seed, time.Unix(0, deadlineNs), verifDir)
